@@ -86,6 +86,8 @@ def _run_knockout(args) -> Dict:
     except AnalysisError as e:
         # an edit that makes the anchor unrecognisable is also detected (exit 2 path)
         return {"name": ko.name, "status": "analysis-error", "rule": ko.rule, "why": str(e)[:200]}
+    except Exception as e:  # an internal error of a rule on the edited source: reported, never a traceback flood
+        return {"name": ko.name, "status": "analysis-error", "rule": ko.rule, "why": f"internal error: {type(e).__name__}: {str(e)[:160]}"}
 
 
 def selftest(pid: str, root: str, tier: str, base_keys: set) -> Dict:
